@@ -1,0 +1,33 @@
+//go:build verif
+
+package event
+
+import (
+	"sync"
+
+	"github.com/AliceO2Group/Control/common/monitoring"
+	"github.com/segmentio/kafka-go"
+)
+
+// NewWriterForVerif builds a KafkaWriter exactly like NewWriterWithTopic, except that the
+// function handing batches to the broker is injected and no broker address is configured.
+func NewWriterForVerif(topic string, write func([]kafka.Message)) *KafkaWriter {
+	writer := &KafkaWriter{
+		Writer: &kafka.Writer{
+			Topic:    topic,
+			Balancer: &kafka.Hash{},
+		},
+		toBatchMessagesChan: make(chan kafka.Message, 10000),
+		messageBuffer:       NewFifoBuffer[kafka.Message](),
+		runningWorkers:      sync.WaitGroup{},
+		batchingLoopDoneCh:  make(chan struct{}, 1),
+	}
+	writer.writeFunction = func(messages []kafka.Message, _ *monitoring.Metric) {
+		write(messages)
+	}
+
+	go writer.writingLoop()
+	go writer.batchingLoop()
+
+	return writer
+}
